@@ -2,47 +2,59 @@ import OpcuaModel.Base.Loop
 import OpcuaModel.Model.PubLoop
 /-
   Driver for C27.
-    trace <subscribes> <forgets> <stale> <reconnects> <nsubs> <label>…  → ok <dead|rest|live> <state> | invalid <k>
+    trace <subscribes> <forgets> <stale> <staleD> <reconnects> <nsubs> <label>…  → ok <dead|rest|live> <state> | invalid <k>
     after <state> <op>            → the quiescent states reachable by internal steps, separated by `|`
     member <state> <op> <obs>     → yes | no      (obs = projection of a quiescent state)
-  state = pause,resume,mux,loop,subSend,subLock,fgStart,fgStale,monPause,monResume,nsubs
+  state = pause,resume,mux,loop,subSend,subLock,fgStart,fgStale,fgStaleD,monPause,monResume,nsubs
   op    = S (a Subscribe call starts) | F (ForgetSubscription of a registered id) |
-          G (… of an id that is not registered) | M (a reconnect round of Client.monitor starts) |
+          G (… of an id that is not registered) | Gt (… with a context deadline) | Dl (that deadline passes) |
+          Rdata (the outstanding publish is answered with a data notification) | T (the application takes it) | M (a reconnect round of Client.monitor starts) |
           Rok | Rign | Rerr (the outstanding publish ends) | X (connection dropped: publish fails and a
           reconnect round starts) | N (nothing)
   obs   = pause,resume,loop,mux,subSend,subLock,fgWait,monPause,nsubs   (nsubs = ? while the lock is held)
 -/
 open Opcua Opcua.PubLoop
 
+/-- full names for the state text (the observation only sees `wantLock`) -/
+def loopFull : Loop → String
+  | .wantLockD => "wantLockD"
+  | l => match l with
+    | .sel => "sel" | .paused => "paused" | .pubStart => "pubStart" | .inflight => "inflight"
+    | .wantLock => "wantLock" | .wantLockD => "wantLockD" | .notifying => "notifying" | .selfPause => "selfPause"
+
 def loopName : Loop → String
   | .sel => "sel" | .paused => "paused" | .pubStart => "pubStart" | .inflight => "inflight"
-  | .wantLock => "wantLock" | .selfPause => "selfPause"
+  | .wantLock => "wantLock" | .wantLockD => "wantLock" | .notifying => "notifying" | .selfPause => "selfPause"
 
 def parseLoop : String → Option Loop
   | "sel" => some .sel | "paused" => some .paused | "pubStart" => some .pubStart
-  | "inflight" => some .inflight | "wantLock" => some .wantLock | "selfPause" => some .selfPause
+  | "inflight" => some .inflight | "wantLock" => some .wantLock | "wantLockD" => some .wantLockD
+  | "notifying" => some .notifying | "selfPause" => some .selfPause
   | _ => none
 
 def muxName : Mux → String
-  | .free => "free" | .forgetSending => "held"
+  | .free => "free" | .forgetSending => "held" | .forgetSendingD => "held"
+
+def muxFull : Mux → String
+  | .free => "free" | .forgetSending => "held" | .forgetSendingD => "heldD"
 
 def parseMux : String → Option Mux
-  | "free" => some .free | "held" => some .forgetSending | _ => none
+  | "free" => some .free | "held" => some .forgetSending | "heldD" => some .forgetSendingD | _ => none
 
 def showSt (s : St) : String :=
-  s!"{s.pause},{s.resume},{muxName s.mux},{loopName s.loop},{s.subSend},{s.subLock},{s.fgStart},{s.fgStale},{s.monPause},{s.monResume},{s.nsubs}"
+  s!"{s.pause},{s.resume},{muxFull s.mux},{loopFull s.loop},{s.subSend},{s.subLock},{s.fgStart},{s.fgStale},{s.fgStaleD},{s.monPause},{s.monResume},{s.nsubs}"
 
 def parseSt (t : String) : Option St :=
   match t.splitOn "," with
-  | [p, r, m, l, a, b, c, d, e, f, n] => do
+  | [p, r, m, l, a, b, c, d, dd, e, f, n] => do
     pure { pause := ← p.toNat?, resume := ← r.toNat?, mux := ← parseMux m, loop := ← parseLoop l,
            subSend := ← a.toNat?, subLock := ← b.toNat?, fgStart := ← c.toNat?, fgStale := ← d.toNat?,
-           monPause := ← e.toNat?, monResume := ← f.toNat?, nsubs := ← n.toNat? }
+           fgStaleD := ← dd.toNat?, monPause := ← e.toNat?, monResume := ← f.toNat?, nsubs := ← n.toNat? }
   | _ => none
 
 def obsOf (s : St) : String :=
   let n := if s.mux = .free then toString s.nsubs else "?"
-  s!"{s.pause},{s.resume},{loopName s.loop},{muxName s.mux},{s.subSend},{s.subLock},{s.fgStart + s.fgStale},{s.monPause},{n}"
+  s!"{s.pause},{s.resume},{loopName s.loop},{muxName s.mux},{s.subSend},{s.subLock},{s.fgStart + s.fgStale + s.fgStaleD},{s.monPause},{n}"
 
 def parseLabel (t : String) : Option Label :=
   Label.all.find? fun l => (reprStr l).endsWith ("." ++ t)
@@ -51,6 +63,10 @@ def applyOp (s : St) : String → Option St
   | "S" => some { s with subSend := s.subSend + 1 }
   | "F" => some { s with fgStart := s.fgStart + 1 }
   | "G" => some { s with fgStale := s.fgStale + 1 }
+  | "Gt" => some { s with fgStaleD := s.fgStaleD + 1 }
+  | "Dl" => some ((step s .fgGiveUp).getD s)
+  | "Rdata" => step s .respData
+  | "T" => step s .appTake
   | "M" => some { s with monPause := s.monPause + 1 }
   | "Rok" => step s .respOk
   | "Rign" => step s .respIgnored
@@ -62,9 +78,9 @@ def applyOp (s : St) : String → Option St
   | _ => none
 
 def handle : List String → String
-  | "trace" :: a :: b :: c :: d :: n :: labels =>
-    match a.toNat?, b.toNat?, c.toNat?, d.toNat?, n.toNat?, labels.mapM parseLabel with
-    | some a, some b, some c, some d, some n, some ls =>
+  | "trace" :: a :: b :: c :: cd :: d :: n :: labels =>
+    match a.toNat?, b.toNat?, c.toNat?, cd.toNat?, d.toNat?, n.toNat?, labels.mapM parseLabel with
+    | some a, some b, some c, some cd, some d, some n, some ls =>
       let rec go (s : St) (k : Nat) : List Label → String
         | [] =>
           let v := if canStep s then "live" else if atRest s then "rest" else "dead"
@@ -72,8 +88,8 @@ def handle : List String → String
         | l :: rest => match step s l with
           | some s' => go s' (k + 1) rest
           | none => s!"invalid {k}"
-      go (init a b c d n) 0 ls
-    | _, _, _, _, _, _ => "bad-op"
+      go (init a b c cd d n) 0 ls
+    | _, _, _, _, _, _, _ => "bad-op"
   | ["after", st, op] =>
     match parseSt st >>= (applyOp · op) with
     | some s => "|".intercalate ((quiesce 4000 [s] []).map showSt)
